@@ -30,9 +30,12 @@ def run(ctx):
     recs = [vg.run_real(p) for p in vg.all_declarations(3)]
     batches.append(("all3", recs, 3, 16 ** 3))
     if not q:
+        # worker processes are spawned (not forked: forking a process in which torch has started its thread pools can hang)
+        # and enumerate their own share of the declarations
         import multiprocessing as mp
-        with mp.Pool(16) as pool:
-            recs4 = pool.map(vg.run_real, vg.all_declarations(4), chunksize=4096)
+        with mp.get_context("spawn").Pool(16) as pool:
+            parts = pool.map(vg.run_chunk, [(4, i) for i in range(vg.n_subsets(4))], chunksize=1)
+        recs4 = [r for part in parts for r in part]
         ctx.log(f"ran the real VariablesDAG on all {len(recs4)} declarations over 4 nodes")
         for c in range(16):
             batches.append((f"all4_{c}", recs4[c::16], 0, 0))
